@@ -22,6 +22,9 @@ for a in sys.argv[1:]:
         checks = a.split('=', 1)[1].split(',')
 ids = args or sorted(d for d in os.listdir(S) if os.path.isdir(os.path.join(S, d)))
 mp = os.path.join(S, 'MATRIX.json')
+for a in sys.argv[1:]:
+    if a.startswith('--out='):
+        mp = a.split('=', 1)[1]
 matrix = json.load(open(mp)) if os.path.exists(mp) else {}
 for m in ids:
     patch = os.path.join(S, m, 'patch.diff')
